@@ -2,7 +2,11 @@
 (* Bounded model of Storage.tla: every sequence of <= MaxOps operations over Values.
    Invariants = the sentences of C19; every edge is emitted for replay on Storage<f64> / Storage<String>. *)
 EXTENDS Integers, Sequences, FiniteSets, TLC, Json, Storage
-CONSTANTS Values, MaxOps, Emit
+CONSTANTS Mode, MaxOps, Emit
+V(k, t, md) == [k |-> k, t |-> t, m |-> md]
+\* f64: +0.0 / -0.0 (equal, distinguishable), 1.0, NaN;  keytag: equal iff same key and different tag
+Values == IF Mode = "f64" THEN {V("zero", 0, "std"), V("zero", 1, "std"), V("one", 0, "std"), V("nan", 0, "nan")}
+          ELSE {V("k1", 4, "difftag"), V("k1", 5, "difftag"), V("k2", 4, "difftag")}
 VARIABLES data, toks, appended, hist     \* toks: tokens handed out; appended: tokens returned by append
 vars == <<data, toks, appended, hist>>
 Init == data = <<>> /\ toks = <<>> /\ appended = <<>> /\ hist = <<>>
